@@ -41,6 +41,7 @@ def cases(tier, seed):
     progs = list(base)
     for p in G.gen_base(1 if tier == 'quick' else 2):
         progs += G.option_deviations(p)
+    progs += G.gen_special()
     for p in progs:
         if G.structure_flags(p):
             continue
